@@ -476,7 +476,7 @@ def binop(run, op, a, b, node):
         if a.ty is TAny or b.ty is TAny:
             return pyval_add(run, a, b, node)
         if a.ty is TStr and b.ty is TStr:
-            return Val(TStr, z3.Concat(a.t, b.t))
+            return Val(TStr, z3.Concat(a.t, b.t), pykind=a.pykind if a.pykind == b.pykind else None)
         if a.ty is TInt and b.ty is TInt:
             return Val(TInt, a.t + b.t)
         if isinstance(a.ty, TSeq) and a.ty == b.ty:
